@@ -482,7 +482,15 @@ def save_replay(pid, src_file, seed, tag):
     os.makedirs(d, exist_ok=True)
     name = "%s-seed%s-%s.json" % (pid, seed, re.sub(r"[^A-Za-z0-9]+", "_", tag))
     dst = os.path.join(d, name)
-    shutil.copy(src_file, dst)
+    try:
+        # remember which leg (build flavour: race / GOARCH / wrapper / instrumentation) produced the case
+        data = json.load(open(src_file))
+        m = re.match(r"[^/]+/([^#]+)", tag)
+        if m and "leg" not in data:
+            data["leg"] = m.group(1)
+        json.dump(data, open(dst, "w"), indent=1)
+    except Exception:
+        shutil.copy(src_file, dst)
     return dst
 
 
@@ -641,8 +649,10 @@ def do_replay(path):
     test = rf.get("test", "")
     if test.startswith("fuzz:"):
         return replay_fuzz(pid, prop, rf)
-    # Find the leg that knows this test name.
-    cand = [l for l in prop["legs"] if not l.fuzz and test in l.tests]
+    # Find the leg that produced the case (same build flavour), else one that knows this test name.
+    cand = [l for l in prop["legs"] if not l.fuzz and l.name == rf.get("leg")]
+    if not cand:
+        cand = [l for l in prop["legs"] if not l.fuzz and test in l.tests]
     if not cand:
         cand = [l for l in prop["legs"] if not l.fuzz]
     leg = cand[0]
